@@ -389,11 +389,11 @@ func (n NaturalLanguageValues) MarshalJSON() ([]byte, error) {
 			return b.Bytes(), nil
 		}
 	}
-	b.Write([]byte{'{'})
-	empty := true
 	// a JSON object must not repeat a member name: of the entries that would be written under one name (the same tag
 	// twice, or tags that differ only in bytes JSON can not carry) the first is written, as Get returns the first
 	written := make(map[string]struct{}, l)
+	names := make([][]byte, 0, l)
+	values := make([]Content, 0, l)
 	for _, val := range n {
 		if len(val.Ref) == 0 || len(val.Value) == 0 {
 			continue
@@ -404,20 +404,30 @@ func (n NaturalLanguageValues) MarshalJSON() ([]byte, error) {
 			continue
 		}
 		written[name.String()] = struct{}{}
-		if !empty {
+		names = append(names, name.Bytes())
+		values = append(values, val.Value)
+	}
+	if len(names) == 0 {
+		return nil, nil
+	}
+	if len(names) == 1 {
+		// the form is decided by what is written, not by what is held: a single text is written as a plain string,
+		// as it is when it is the only entry, so that writing what was read back gives the same bytes
+		stringBytes(&b, values[0], false)
+		return b.Bytes(), nil
+	}
+	b.Write([]byte{'{'})
+	for i, name := range names {
+		if i > 0 {
 			b.Write([]byte{','})
 		}
 		// every entry of a language map needs its member name, the untagged one ("-") included
-		b.Write(name.Bytes())
+		b.Write(name)
 		b.Write([]byte{':'})
-		stringBytes(&b, val.Value, false)
-		empty = false
+		stringBytes(&b, values[i], false)
 	}
 	b.Write([]byte{'}'})
-	if !empty {
-		return b.Bytes(), nil
-	}
-	return nil, nil
+	return b.Bytes(), nil
 }
 
 // First returns the first element in the array
